@@ -48,10 +48,11 @@ func freePort() string {
 	if portBase == 0 {
 		// one private range per shard, below the ephemeral port range (a probe dialling a free port
 		// from that very port would connect to itself)
-		portBase = 20000 + (PortShard%16)*700
+		// (wide: a restarted teamserver's operator endpoint cannot be closed from outside, every restart of a shard keeps one port)
+		portBase = 1100 + (PortShard%16)*1950
 	}
-	for tries := 0; tries < 700; tries++ {
-		p := portBase + portNext%700
+	for tries := 0; tries < 1950; tries++ {
+		p := portBase + portNext%1950
 		portNext++
 		l, err := net.Listen("tcp", fmt.Sprintf("127.0.0.1:%d", p))
 		if err != nil {
